@@ -1,3 +1,83 @@
-import GV.Orch.Spec
+/-
+  C12 — Selected-rule calls run exactly the named rules, in the promised order.
+-/
+import GV.Orch.AllConform
+import GV.Props.C04
 namespace GV.Props.C12
+open GV.Orch GV.Generated.Orch
+
+theorem C12_ExecuteSelectedRules : Conforms ExecuteSelectedRules .ExecuteSelectedRules := All.conf_ExecuteSelectedRules
+theorem C12_ExecuteSelectedRulesWithControl :
+    Conforms ExecuteSelectedRulesWithControl .ExecuteSelectedRulesWithControl := All.conf_ExecuteSelectedRulesWithControl
+theorem C12_AsGivenSortedName :
+    Conforms ExecuteSelectedRulesWithControlAsGivenSortedName .ExecuteSelectedRulesWithControlAsGivenSortedName :=
+  All.conf_ExecuteSelectedRulesWithControlAsGivenSortedName
+theorem C12_AndStopTag :
+    Conforms ExecuteSelectedRulesWithControlAndStopTag .ExecuteSelectedRulesWithControlAndStopTag :=
+  All.conf_ExecuteSelectedRulesWithControlAndStopTag
+theorem C12_AndStopTagAsGivenSortedName :
+    Conforms ExecuteSelectedRulesWithControlAndStopTagAsGivenSortedName
+      .ExecuteSelectedRulesWithControlAndStopTagAsGivenSortedName :=
+  All.conf_ExecuteSelectedRulesWithControlAndStopTagAsGivenSortedName
+theorem C12_Concurrent : Conforms ExecuteSelectedRulesConcurrent .ExecuteSelectedRulesConcurrent :=
+  All.conf_ExecuteSelectedRulesConcurrent
+theorem C12_MixModel : Conforms ExecuteSelectedRulesMixModel .ExecuteSelectedRulesMixModel :=
+  All.conf_ExecuteSelectedRulesMixModel
+theorem C12_InverseMixModel :
+    Conforms ExecuteSelectedRulesInverseMixModel .ExecuteSelectedRulesInverseMixModel :=
+  All.conf_ExecuteSelectedRulesInverseMixModel
+theorem C12_NSortMConcurrent : Conforms ExecuteSelectedNSortMConcurrent .ExecuteSelectedNSortMConcurrent :=
+  All.conf_ExecuteSelectedNSortMConcurrent
+theorem C12_NConcurrentMSort : Conforms ExecuteSelectedNConcurrentMSort .ExecuteSelectedNConcurrentMSort :=
+  All.conf_ExecuteSelectedNConcurrentMSort
+theorem C12_NConcurrentMConcurrent :
+    Conforms ExecuteSelectedNConcurrentMConcurrent .ExecuteSelectedNConcurrentMConcurrent :=
+  All.conf_ExecuteSelectedNConcurrentMConcurrent
+
+/-! ### Clauses -/
+
+/-- The selection is the list of named rules that exist, in the caller's order; unknown names
+    are skipped. -/
+theorem selected_mem (cfg : Cfg) (r : Rule) (h : r ∈ selected cfg) :
+    ∃ n ∈ cfg.names, lookupRule cfg.entities n = some r := by
+  simpa [selected] using h
+
+/-- Never an unselected rule: a selected rule carries one of the given names. -/
+theorem selected_named (cfg : Cfg) (r : Rule) (h : r ∈ selected cfg) : r.name ∈ cfg.names := by
+  obtain ⟨n, hn, hl⟩ := selected_mem cfg r h
+  have := List.find?_some hl
+  have hname : r.name = n := by simpa using this
+  rw [hname]; exact hn
+
+/-- as-given variants run exactly the selection, in exactly the caller's order (prefix on stop). -/
+theorem as_given_order (cfg : Cfg) (b s : Bool) : (sortFamily cfg (selected cfg) b s).flatten <+: selected cfg :=
+  C04.trace_prefix cfg _ b s
+
+/-- sorted variants run a permutation-prefix of the selection in non-increasing salience order. -/
+theorem sorted_order (cfg : Cfg) (b s : Bool) :
+    ((sortFamily cfg (sortDesc (selected cfg)) b s).flatten).Pairwise (fun a b => a.sal ≥ b.sal) :=
+  C04.trace_sorted cfg _ b s (C04.sortDesc_sorted _)
+
+/-- No named rule exists ⇒ the call fails without running anything (sorted and as-given variants). -/
+theorem none_found_fails (cfg : Cfg) (h : selected cfg = []) (hrb : cfg.rbNil = false) :
+    spec .ExecuteSelectedRulesWithControl cfg = none ∧
+    spec .ExecuteSelectedRulesWithControlAsGivenSortedName cfg = none ∧
+    spec .ExecuteSelectedRulesConcurrent cfg = none ∧
+    spec .ExecuteSelectedRulesInverseMixModel cfg = none := by
+  simp [spec, h, hrb]
+
+/-- Selected N-M: an unknown name or a wrong number of names ⇒ error, nothing runs. -/
+theorem nm_strict (cfg : Cfg) (hrb : cfg.rbNil = false)
+    (h : cfg.n + cfg.m ≠ cfg.names.length ∨ ∃ n ∈ cfg.names, lookupRule cfg.entities n = none) :
+    spec .ExecuteSelectedNSortMConcurrent cfg = none ∧ spec .ExecuteSelectedNConcurrentMSort cfg = none ∧
+    spec .ExecuteSelectedNConcurrentMConcurrent cfg = none := by
+  have : (nmGuardsOk cfg cfg.sorted.length && decide (cfg.n + cfg.m = cfg.names.length)
+      && cfg.names.all (fun n => (lookupRule cfg.entities n).isSome)) = false := by
+    rcases h with h | ⟨n, hn, hl⟩
+    · simp [h]
+    · have : cfg.names.all (fun n => (lookupRule cfg.entities n).isSome) = false := by
+        apply List.all_eq_false.mpr; exact ⟨n, hn, by simp [hl]⟩
+      simp [this]
+  simp [spec, hrb, this]
+
 end GV.Props.C12
